@@ -501,6 +501,39 @@ def offrank_shape(rng, ish):
     return s
 
 
+def gen_offrank_stack(rng):
+    """(tree, ishape): Add / Hstack / Vstack / Diag of k equal-sized Identity/Reshape/scalar chains (every `_apply` below the
+    root is defined on inputs of any shape), to be applied to inputs of a DIFFERENT rank: exercises the too-many-indices
+    IndexError of `input[slc]`, numpy broadcasting in `output[slc] = y` and `a + b`, and the zip guards around them"""
+    k = rng.choice([2, 2, 3])
+    s = same_size_shape(rng, rng.choice([1, 2, 3, 4, 6]))
+    other = same_size_shape(rng, prod(s))
+    t = rng.choice(["add", "hstack", "vstack", "diag", "diag"])
+
+    def stacked(shape, axis):
+        if axis is None:
+            return [prod(shape) * k]
+        r = list(shape)
+        r[axis] = r[axis] * k
+        return r
+
+    def axis_of(shape):
+        return rng.choice([None] + list(range(-len(shape), len(shape))))
+
+    def opnd(o, i):
+        return gen_chain(rng, o, i, rng.choice([0, 0, 1]))
+    if t == "add":
+        return dict(t="add", args=[opnd(other, s) for _ in range(k)], ctor=True), list(s)
+    if t == "hstack":
+        ax = axis_of(s)
+        return dict(t="hstack", axis=ax, args=[opnd(other, s) for _ in range(k)]), stacked(s, ax)
+    if t == "vstack":
+        ax = axis_of(s)
+        return dict(t="vstack", axis=ax, args=[opnd(s, other) for _ in range(k)]), list(other)
+    oax, iax = axis_of(other), axis_of(s)
+    return dict(t="diag", oaxis=oax, iaxis=iax, args=[opnd(other, s) for _ in range(k)]), stacked(s, iax)
+
+
 # ---- malformed trees: one operand that does not fit ------------------------------------------
 def perturb(rng, shape, keep_axis=None, p_same=0.3):
     """a shape that differs from `shape` (other than along keep_axis)"""
@@ -877,6 +910,17 @@ def correspond(ctx):
         ctx.count("offrank:guard-%s" % ("passes" if zip_guard(xs, ish) else "rejects"))
     bad, keys, unexplained = _run_stream(ctx, "off-rank", cases, exact=True)
     _oblige(ctx, "off-rank", bad, keys, unexplained)
+    # -- stream 3c: inputs of a different rank through the GENERATED stacking / sum bodies (IndexError of input[slc],
+    #    numpy broadcasting of output[slc] = y and a + b as modelled in Model/C03Np.lean)
+    cases = []
+    for i in range(n // 2):
+        tree, ish = gen_offrank_stack(rng)
+        r = rng.random()
+        xs = offrank_shape(rng, ish) if r < 0.6 else list(ish) if r < 0.8 else perturb(rng, ish)
+        cases.append((tree, xs, gen_input(rng, xs, True)))
+        ctx.count("offrank-stack:%s:%s" % (tree["t"], "shorter" if len(xs) < len(ish) else "longer" if len(xs) > len(ish) else "same-rank"))
+    bad, keys, unexplained = _run_stream(ctx, "off-rank-stack", cases, exact=True)
+    _oblige(ctx, "off-rank-stack", bad, keys, unexplained)
     # -- stream 4: the params functions directly
     _params_stream(ctx, n)
     # -- stream 5: the guard functions directly
